@@ -21,5 +21,10 @@ go test -count=1 -run "$RUN" $PKG > /tmp/wt/$ID.demo_without.log 2>&1; without=$
 rm $DEMO
 git apply /verif/seeded/$ID/patch.diff
 echo "CONFIRM $ID: demo_with_change_exit=$with (want !=0) suite_with_change_exit=$suite (want 0) demo_without_change_exit=$without (want 0)"
-cd /verif && VERIF_REPO=$W timeout 3000 ./check $PROP quick > /tmp/wt/$ID.check.log 2>&1; rc=$?
+# the check runs on a fresh worktree of /repo's HEAD with only the seeded patch applied (the sub-agent's worktree may predate later hook commits)
+CHK=/tmp/wt/chk-$ID
+git -C /repo worktree remove --force $CHK 2>/dev/null
+git -C /repo worktree add -q --detach $CHK HEAD && git -C $CHK apply /verif/seeded/$ID/patch.diff || { echo "patch does not apply to HEAD"; exit 2; }
+cd /verif && VERIF_REPO=$CHK timeout 3000 ./check $PROP quick > /tmp/wt/$ID.check.log 2>&1; rc=$?
+git -C /repo worktree remove --force $CHK
 echo "CHECK $ID: prop=$PROP exit=$rc violations=$(grep -c '^VIOLATION' /tmp/wt/$ID.check.log)"; grep -m2 '^DEVIATION' /tmp/wt/$ID.check.log | cut -c1-260; grep '^RESULT\|MACHINERY' /tmp/wt/$ID.check.log
